@@ -2,6 +2,7 @@
 From Coq Require Import String.
 From Coq Require Import NArith ZArith List Bool.
 From DI Require Import Result PyStr Val Codec Version Dpkg Deps Package Contents Deb822 Email Debcon Copyright Unsign Mapping.
+From DI Require Import SpecCheck.  (* C13: the computable hypothesis of the document theorem, run on generated documents *)
 Import ListNotations.
 Open Scope N_scope.
 
@@ -276,6 +277,7 @@ Definition dispatch_copyright (fn : str) (args : list val) : option val :=
       if fn_is "copyright_from_text" fn then Some (VRes VDoc (from_text a))
       else if fn_is "normalize_control_field_name" fn then Some (VStr (normalize_control_field_name a))
       else if fn_is "is_year_range" fn then Some (VBool (is_year_range a))
+      else if fn_is "c13_test" fn then Some (VRes VBool (c13_test a))
       else if fn_is "statement" fn then
         Some (let s := statement_from_value a in VList [VStr (fst s); VStr (snd s); VStr (statement_dumps s)])
       else None
